@@ -381,19 +381,26 @@ func serveScenario(id string, seed uint64) runner.Result {
 			}
 		}
 	}
-	cancel()
+	// the shutdown: the server context is cancelled, or the application closes the listener under a
+	// context that stays live (Accept fails for good: Serve must wind down just the same)
+	byListener := lis.cancelOnCall == 0 && r.Intn(3) == 0
+	if byListener {
+		lis.Close()
+	} else {
+		cancel()
+	}
 	census.Quiesce(rig.Watchdog)
 	if park != nil {
 		park.Release()
 	}
 	st, snap := census.QuiesceOr(nil, rig.Watchdog)
-	desc := fmt.Sprintf("Serve with %d connections (late=%v) park=%s", nconn, late, parkPt)
+	desc := fmt.Sprintf("Serve with %d connections (late=%v) park=%s stopped-by-listener-failure=%v", nconn, late, parkPt, byListener)
 	if st == "watchdog" {
 		return runner.Inconcl(id, "watchdog: "+desc)
 	}
 	var fails []string
 	if !serve.Returned() {
-		fails = append(fails, "Serve has not returned at quiescence after its context was cancelled\n"+census.Dump(census.InDRPC(snap)))
+		fails = append(fails, "Serve has not returned at quiescence after its context was cancelled or its listener failed\n"+census.Dump(census.InDRPC(snap)))
 	} else {
 		lis.mu.Lock()
 		acc := append([]*simnet.End(nil), lis.acc...)
